@@ -146,6 +146,35 @@ def run(chk, repo, tier):
             whole = [c for s in n.body for c in ast.walk(s) if isinstance(c, ast.Call)
                      and any(isinstance(a, ast.Name) and a.id == 'obj' for a in c.args)]
             dec_tags[tag] = (keys, [dotted(c.func) or unparse(c.func) for c in whole], n)
+    # table-driven dispatch: `decoder = _TABLE.get(cls); return decoder(obj)` with _TABLE = {'tag': function, ..}
+    for n in ast.walk(dh.node):
+        tbl = None
+        if isinstance(n, ast.Call) and isinstance(n.func, ast.Attribute) and n.func.attr == 'get' and n.args \
+                and unparse(n.args[0]) == 'cls' and isinstance(n.func.value, ast.Name):
+            tbl = n.func.value.id
+        elif isinstance(n, ast.Subscript) and unparse(n.slice) == 'cls' and isinstance(n.value, ast.Name):
+            tbl = n.value.id
+        d_ = wm.globals_.get(tbl) if tbl else None
+        if not isinstance(d_, ast.Dict):
+            continue
+        for k_, v_ in zip(d_.keys, d_.values):
+            if not (isinstance(k_, ast.Constant) and isinstance(k_.value, str) and isinstance(v_, ast.Name)):
+                continue
+            g_ = wm.functions.get(v_.id)
+            if g_ is None or not g_.node.args.args:
+                continue
+            pn = g_.node.args.args[0].arg
+            keys = {x.slice.value for x in ast.walk(g_.node) if isinstance(x, ast.Subscript)
+                    and unparse(x.value) == pn and isinstance(x.slice, ast.Constant)}
+            whole = [c for c in ast.walk(g_.node) if isinstance(c, ast.Call)
+                     and any(isinstance(a, ast.Name) and a.id == pn for a in c.args)]
+            # the function itself may BE the consumer of the whole dict (_df_read_json registered directly)
+            wl = [dotted(c.func) or unparse(c.func) for c in whole]
+            if not keys and not wl:
+                wl = [g_.name]
+            dec_tags.setdefault(k_.value, (keys, wl if (keys or whole) else [g_.name], g_.node))
+            if g_.name in ('_df_read_json', '_multi_index_read_json'):
+                dec_tags[k_.value] = (set(), [g_.name], g_.node)
     if len(enc_tags) < 3 or len(dec_tags) < 5:
         raise AnalysisError(f'Z2: encoder tags {sorted(enc_tags)} / decoder tags {sorted(dec_tags)}: extraction failed')
     DICT_CONSUMERS = {'_df_read_json', '_multi_index_read_json', 'Log.from_dict', 'results_class.from_dict',
